@@ -27,5 +27,3 @@ mod c17_encode_errors;
 mod c18_isolation;
 mod c19_memory;
 mod c11_varint;
-#[cfg(kani)]
-mod probe;
